@@ -344,8 +344,10 @@ impl NestedTrieDawg {
             }
         }
 
-        // Mark final state as terminal
-        if (current_state as usize) < self.states.len() {
+        // Mark final state as terminal; a key counts once
+        if (current_state as usize) < self.states.len()
+            && !self.states[current_state as usize].is_terminal()
+        {
             self.states[current_state as usize].set_terminal(true);
             self.num_keys += 1;
         }
